@@ -10,6 +10,7 @@ from .. import shapes as S
 from ..core import fmt_list, parse_rats, frac, err_kind, close, exact, floats
 
 ID = "C12"
+THREADS = True       # part of the cases run concurrently in threads of one interpreter (the schedule dimension)
 MODULES = ["TWV.Properties.C12"]
 RULE = ("random series of 2..40 points, uniform / non-uniform, integer or float abscissae, r in 1..12, through process.repeat "
         "and through Weaver.repeat (working and reference series), plus all factor pairs a*b <= 12 for the composition law. "
@@ -19,6 +20,8 @@ ASSUMPTIONS = ["abscissae on a dyadic lattice, so the shifted copies are exact i
 
 def cases(rng, tier):
     n_ = {"quick": 400, "thorough": 5000}.get(tier, 300)
+    for _ in range({"quick": 1, "thorough": 6}.get(tier, 1)):
+        yield mem_case(rng)
     for _ in range(n_):
         n = rng.randint(2, 40 if rng.random() < 0.3 else 8)
         x = rng.increasing(n, jitter=rng.random() < 0.2)
@@ -35,16 +38,82 @@ def cases(rng, tier):
                "int": integer, "via": rng.choice(["process", "weaver"]), "a": rng.randint(1, 4), "b": rng.randint(1, 3)}
 
 
+def mem_case(rng):
+    """a long series repeated under a capped address space (ulimit -v / RLIMIT_AS): whichever allocation fails, the
+    call either raises MemoryError or returns the periodic extension - never something else"""
+    return {"mem": True, "n": rng.choice([200000, 300000, 500000]), "r": rng.choice([8, 12]), "x": ["0", "1"], "y": ["0", "1"],
+            "int": False, "via": "process", "a": 1, "b": 1, "steps": [str(rng.dyadic(1, 9, 4)) for _ in range(5)],
+            "layout": "contig,contig,contig", "hist": "none"}
+
+
+def run_mem(c):
+    import json
+    import os
+    import resource
+    from traffic_weaver.process import repeat
+    n, r = c["n"], c["r"]
+    steps = np.array([float(Fraction(v)) for v in c["steps"]])
+    x = np.concatenate([[0.75], 0.75 + np.cumsum(np.resize(steps, n - 1))])
+    y = np.resize(np.array([1.0, -2.5, 4.0, 0.5, 3.25, -1.0, 2.0]), n)
+    A = n * r * 8
+    verdicts = []
+    for q in range(12, 42):                     # room above the current size: 1.5 A ... 5.1 A in steps of A / 8
+        rd, wr = os.pipe()
+        pid = os.fork()
+        if pid == 0:
+            code = 0
+            try:
+                os.close(rd)
+                vm = 0
+                for ln in open("/proc/self/status"):
+                    if ln.startswith("VmSize:"):
+                        vm = int(ln.split()[1]) * 1024
+                soft, hard = resource.getrlimit(resource.RLIMIT_AS)
+                resource.setrlimit(resource.RLIMIT_AS, (vm + (A * q) // 8, hard))
+                try:
+                    try:
+                        rx, ry = repeat(x, y, r)
+                    finally:
+                        resource.setrlimit(resource.RLIMIT_AS, (soft, hard))     # the check itself is not capped
+                    P = (x[-1] - x[0]) + (x[-1] - x[-2])
+                    ok = (len(rx) == n * r and len(ry) == n * r and bool(np.array_equal(rx[:n], x))
+                          and bool(np.array_equal(ry, np.tile(y, r))))
+                    for i in range(1, r):
+                        if not ok:
+                            break
+                        ok = bool(np.allclose(rx[i * n:(i + 1) * n], x + i * P, rtol=1e-12, atol=1e-9 * abs(rx[-1])))
+                    v = "ok" if ok else f"WRONG: first x {float(rx[0])!r} (input {float(x[0])!r}), min step {float(np.min(np.diff(rx)))!r}"
+                except MemoryError:
+                    v = "MemoryError"
+                except Exception as e:  # noqa
+                    v = "raised " + type(e).__name__
+                os.write(wr, json.dumps(v).encode())
+            except BaseException:  # noqa
+                code = 1
+            finally:
+                os._exit(code)
+        os.close(wr)
+        with os.fdopen(rd, "rb") as f:
+            data = f.read()
+        os.waitpid(pid, 0)
+        verdicts.append([q / 8, json.loads(data) if data else "child died"])
+    return {"mem": verdicts}
+
+
 def V(c):
     return [Fraction(v) for v in c["x"]], [Fraction(v) for v in c["y"]]
 
 
 def request(c):
+    if c.get("mem"):
+        return []
     x, y = V(c)
     return [f"repeat {c['r']} {fmt_list(x)} {fmt_list(y)}", f"repeat {c['a'] * c['b']} {fmt_list(x)} {fmt_list(y)}"]
 
 
 def run_impl(c):
+    if c.get("mem"):
+        return run_mem(c)
     from traffic_weaver.process import repeat
     from traffic_weaver import Weaver
     x, y = V(c)
@@ -67,6 +136,8 @@ def run_impl(c):
 
 
 def compare(c, io, mo):
+    if c.get("mem"):
+        return None
     if "err" in io:
         return f"impl raised {io['err']}"
     for key, ans in (("ok", mo[0]), ("ab", mo[1])):
@@ -84,6 +155,12 @@ def compare(c, io, mo):
 
 
 def oracle(c, io):
+    if c.get("mem"):
+        bad = [(room, v) for room, v in io["mem"] if v not in ("ok", "MemoryError", "child died")]
+        if bad:
+            return (f"repeat of {c['n']} samples x {c['r']} with room for {bad[0][0]} result arrays above the process size "
+                    f"returned normally but not the periodic extension: {bad[0][1]}")
+        return None
     if "err" in io:
         return f"repeat raised {io['err']}"
     x, y = V(c)
@@ -117,10 +194,18 @@ def oracle(c, io):
 
 
 def tags(c, io, mo):
+    if c.get("mem"):
+        return ["capped-address-space"] + sorted({f"capped:{v.split(':')[0].split(' ')[0]}" for _, v in io["mem"]})
+    return _tags(c, io, mo)
+
+
+def _tags(c, io, mo):
     return [f"via={c['via']}", "int" if c["int"] else "float", f"r={min(c['r'], 5)}{'+' if c['r'] >= 5 else ''}"]
 
 
 def nontrivial_key(c, io, mo):
+    if c.get("mem"):
+        return c if any(v == "ok" for _, v in io["mem"]) and any(v == "MemoryError" for _, v in io["mem"]) else None
     return c if c["r"] >= 2 and len(c["x"]) >= 3 and "err" not in io else None
 
 
